@@ -74,6 +74,8 @@ def _judge(cls, data):  # pylint: disable=too-many-return-statements,too-many-br
             exact = False
         return exact == (size == len(data))
     # mode 'rt'
+    if not hasattr(obj, 'compose'):
+        return True     # code-point factories yield bare enum members; their encoding is C10's subject
     try:
         composed = bytes(obj.compose())
     except Exception as exc:  # pylint: disable=broad-except
@@ -109,10 +111,10 @@ ALPHABET = [0, 9, 10, 13, 32, 34, 37, 44, 45, 47, 48, 57, 58, 59, 61, 64, 65, 92
 
 def window1a(val: int) -> bool:
     """post: _"""
-    if not any([val == char for char in ALPHABET]):  # pylint: disable=use-a-generator
-        return True
     seed = bytes.fromhex(P['SEED'])
     pos = P['POS']
+    if not any([val == char for char in ALPHABET + [seed[pos]]]):  # pylint: disable=use-a-generator
+        return True
     data = seed[:pos] + bytes([val]) + seed[pos + 1:]
     return _judge(_get_class(), data)
 
@@ -185,6 +187,8 @@ def window_shards(mode, tier, seed_value, per_seed=2, timeout=15, tag='w'):  # p
                 continue
         if not accepted:
             continue
+        if mode == 'rt' and not hasattr(cls.parse_exact_size(accepted[0]), 'compose'):
+            continue    # code-point factories yield bare enum members; their encoding is C10's subject
         accepted.sort(key=lambda item: (len(item), item))
         chosen = accepted[:3] if thorough else accepted[:1]
         short = name.replace('cryptoparser.', '')
@@ -200,7 +204,7 @@ def window_shards(mode, tier, seed_value, per_seed=2, timeout=15, tag='w'):  # p
                 positions = sorted([0] + rest[:per_seed - 1])
             for pos in positions:
                 fn = 'window1' if (thorough or not text) else 'window1a'
-                what = 'all 256 values' if fn == 'window1' else 'the %d boundary characters' % len(ALPHABET)
+                what = 'all 256 values' if fn == 'window1' else 'the original and %d boundary characters' % len(ALPHABET)
                 out.append(Shard(
                     MOD, fn, '%s/%s/s%d/p%d' % (tag, short, sidx, pos),
                     {'MODE': mode, 'CLASS': name, 'SEED': data.hex(), 'POS': pos},
